@@ -51,6 +51,7 @@ EXPRS = ["packages.classes", "packages*.classes", "(packages)*.classes.attribute
          "packages.classes,instances", "instances,packages.classes.attributes", "+m:packages.classes", "+m:packages*.classes.attributes", "+pm:^packages*.classes", "(..)*.(packages)*.classes",
          "packages.(packages)*.classes", "instances.~type", "~packages.classes", "packages.~classes.attributes", "(packages.classes)*", "^(classes,attributes)", "parent(Model).packages*.classes", "....packages.classes",
          "(packages,instances)", "(instances,packages)", "^(instances,packages)", "(instances,packages)*", "(packages,instances)*.~type", "('p1'~packages,packages)*.classes", "(packages,'p1'~packages)*.classes",
+         "(~packages.(..))*.classes", "(packages.parent(Package))*.classes", "(~packages.(..))*.attributes,^classes",
          "..extends.attributes", "..'A'~extends.attributes", ".~type.~extends.attributes,.~type.attributes"]
 NAMES = ["A", "p1.A", "p1.inner.A", "p1.inner.D", "p2.E", "x", "u", "v", "cy", "A.x", "p1.A.y", "inner.A", "i1", "zz", "", "p1", "p2.A.v", "E.u", "q.Q", "b.Str", "k", "p2.E.x", "i1.E"]
 def r_C11eval(root, full=None):
@@ -207,6 +208,11 @@ def r_C11eval(root, full=None):
                 for ci, oc in enumerate((None, "Class", "Attr")):
                     if not full and (xi * 7 + si * 5 + ni * 3 + ci) % 18: continue          # quick tier: a fixed eighteenth of the grid
                     plan.append((x, sname, start, name, oc))
+    # cases that are always evaluated (each distinguishes a seeded change the sampled grid may miss)
+    PINNED = [("(~packages.(..))*.attributes,^classes", "class p2.E", "u", None), ("(~packages.(..))*.classes", "package inner", "A", None), ("^(instances,packages)", "the model", "p1", None), ("('p1'~packages,packages)*.classes", "the model", "p1.A", None)]
+    by_name = dict(starts)
+    for x, sname, name, oc in PINNED:
+        if not any(p_[0] == x and p_[1] == sname and p_[3] == name and p_[4] == oc for p_ in plan): plan.append((x, sname, by_name[sname], name, oc))
     for x, sname, start, name, oc in plan:
         names = [p for p in name.split(".") if p]
         want = reference(trees[x][0], start, names, cls[oc] if oc else None)
